@@ -272,6 +272,13 @@ def write_replay(pid, payload):
     return p
 
 
+# C11: the result CONTAINER of these index functions is chosen from the static knowledge about the argument kinds (bounded
+# dimension / size); a bound that is too small shows as a clipped or refused result under the kind that triggers it
+EXTRA_SLICE_OPS = {'C11': ['shape_tile', 'shape_repeat', 'shape_repeat_l', 'shape_pad', 'shape_concatenate', 'broadcast_shape', 'broadcast_shape3',
+                           'shape_broadcast_to', 'shape_reshape', 'shape_transpose', 'remove_dims', 'shape_slice', 'shape_matmul', 'v_tile', 'e_tile',
+                           'v_repeat', 'v_pad', 'v_broadcast_to']}
+
+
 def run_check(mod, tier, seed, replay=None):
     """mod: property module (lib/props/cXX.py). Returns exit code."""
     t0 = time.time()
@@ -309,7 +316,7 @@ def run_check(mod, tier, seed, replay=None):
         try:
             import importlib
             c09 = importlib.import_module('props.c09')
-            ops = c09.OPS_BY_PROPERTY.get(pid)
+            ops = c09.OPS_BY_PROPERTY.get(pid) or EXTRA_SLICE_OPS.get(pid)
             if ops:
                 sp, cs = c09.slice_for(ops, tier, random.Random(seed), refused_only=(pid == 'C15'))
                 specs += list(sp)
